@@ -106,7 +106,8 @@ fn main() {
                 };
                 (r["case"].as_u64().unwrap(), fault)
             });
-            e1o::run(seed, shard, nshards, a.u64("cases", if thorough { 40 } else { 3 }), a.u64("max_faults", if thorough { 400 } else { 60 }) as usize, only, &mut rep);
+            let prop = a.str("props", "C12");
+            e1o::run(seed, shard, nshards, a.u64("cases", if thorough { 40 } else { 3 }), a.u64("max_faults", if thorough { 400 } else { 60 }) as usize, only, &prop, &mut rep);
         }
         "e5c15" => e5::run_c15(seed, shard, a.u64("requests", if thorough { 6000 } else { 400 }), &mut rep),
         "e5c16" => e5::run_c16(seed, shard, a.u64("messages", if thorough { 6000 } else { 400 }), &mut rep),
